@@ -868,6 +868,28 @@ def zoo(tier='quick'):
     external(p)
     economy(p, 'AA', 'AAD')
     Z.append(p)
+    # three zones; the goods market of the first buys from the firms of BOTH other zones - two cross-currency suppliers of one market that carry the
+    # same short sector code (the library's usual naming), each to be paid through its own FX leg (round-9 seed C07-9)
+    for gov in ('cons', 'tre_cb'):
+        p = Plan('p3_two_foreign_suppliers_' + gov)
+        external(p)
+        economy(p, 'AA', 'AAD', gov=gov, firm='multi')
+        economy(p, 'BB', 'BBD', firm='multi')
+        economy(p, 'CC', 'CCD', firm='multi')
+
+        def two_foreign_post(c):
+            mk = c['AA.GOOD']
+            y = c['AA.HH'].GetVariableName('INC')
+            mk.AddVariable('MU', 'share imported from BB', '0.2')
+            mk.SetExogenous('MU', '[0.2,]*%d' % EXO_LEN)
+            mk.AddSupplier(c['BB.BUS'], 'MU*{0}'.format(y))
+            mk.AddSupplier(c['CC.BUS'], '0.1*{0}'.format(y))
+            c['BB.BUS'].AddMarket(mk)
+            c['CC.BUS'].AddMarket(mk)
+        p.post(two_foreign_post)
+        p.features.add('imports')
+        p.meta.setdefault('imports', []).extend([('AA', 'BB'), ('AA', 'CC')])
+        Z.append(p)
     if tier == 'thorough':
         Z.extend(zoo_product())
     return Z
